@@ -51,7 +51,26 @@ theorem std_encrypted_src :
 /-- The caps each write path passes. -/
 theorem normalize_tcp_src : normalize_tcp_args = "NetworkTCP, proto, req, resp, dns.MaxMsgSize" := by decide
 theorem udp_write_src : udp_write_normalize = "NetworkUDP, ProtoDNS, req, resp, r.maxRespSize" := by decide
-theorem dnscrypt_src : dnscrypt_normalize = "network, ProtoDNSCrypt, r, msg, dns.MaxMsgSize" := by decide
+theorem dnscrypt_src : dnscrypt_normalize = "network, ProtoDNSCrypt, r, msg, h.srv.conf.MaxUDPRespSize" := by decide
+
+/-- Round 5, production wiring of the configured maximum: `dns.max_udp_response_size` is validated
+to 1..65535 bytes, converted once (`uint16(….Bytes())`), given to the plain-DNS *and* the DNSCrypt
+servers, handed on by `dnssvc.NewListener`; a `ConfigDNSCrypt` that leaves it unset means 65535. -/
+theorem dnscrypt_clamp_src : dnscrypt_clamp = "min(opt.UDPSize(), h.srv.conf.MaxUDPRespSize)" := by decide
+theorem dnscrypt_clamp_cond_src :
+    dnscrypt_clamp_cond = "written | opt != nil && network == NetworkUDP" := by decide
+theorem dnscrypt_cap_default_src :
+    dnscrypt_cap_default = "cmp.Or(conf.MaxUDPRespSize, dns.MaxMsgSize)" := by decide
+theorem listener_dnscrypt_cap_src : listener_dnscrypt_cap = "udpConf.MaxRespSize" := by decide
+def cmd_udp_conf_expected : String :=
+  "&agd.UDPConfig{ MaxRespSize: uint16(dnsConf.MaxUDPResponseSize.Bytes()), }"
+theorem cmd_udp_conf_src : cmd_udp_conf = cmd_udp_conf_expected := by decide
+theorem cmd_udp_conf_dns_src : cmd_udp_conf_dns = "udpConf" := by decide
+theorem cmd_udp_conf_dnscrypt_src : cmd_udp_conf_dnscrypt = "udpConf" := by decide
+def cmd_dns_validate_expected : String :=
+  "c == nil | c.ReadTimeout.Duration <= 0 | c.TCPIdleTimeout.Duration <= 0 | c.TCPIdleTimeout.Duration > dnsserver.MaxTCPIdleTimeout | c.WriteTimeout.Duration <= 0 | c.HandleTimeout.Duration <= 0 | c.MaxUDPResponseSize.Bytes() == 0 | c.MaxUDPResponseSize.Bytes() > dns.MaxMsgSize | default"
+set_option maxRecDepth 16384 in
+theorem cmd_dns_validate_src : cmd_dns_validate = cmd_dns_validate_expected := by decide
 theorem quic_args_src : quic_normalize_args = "ProtoDoQ, msg, resp" := by decide
 theorem https_args_src : https_normalize_args = "ProtoDoH, req, resp" := by decide
 
